@@ -1,10 +1,11 @@
 """C01 — the reported Lie algebra is isomorphic to the true dynamical Lie algebra."""
 from __future__ import annotations
 from classify_checks import *
+import props.c01_names as N
 
 PID = "C01"
-THEOREMS = CLOSURE_THEOREMS + ["PauLie.Tie.census_tie"]
-IMPORTS = CLOSURE_IMPORTS + ["PauLieVerif.Proofs.TieCensus"]
+THEOREMS = CLOSURE_THEOREMS + ["PauLie.Tie.census_tie"] + N.EXTRA_THEOREMS
+IMPORTS = CLOSURE_IMPORTS + ["PauLieVerif.Proofs.TieCensus"] + N.EXTRA_IMPORTS
 
 def batch_oracle(lines, outs):
     colls = [inputs_of(l) for l in lines]
@@ -52,7 +53,7 @@ def build_streams(rng, tier):
         Stream("exhaustive-small", exhaustive_small_lines(), h, **kw),
         Stream("structured+random", lines, h, **kw),
         history_stream("C01", rng, tier),
-    ]
+    ] + N.extra_streams(rng, tier)
 
 RULE = ("collections from the structured generator (random dense/sparse, canonical stars by census realised as Pauli strings, "
         "obfuscated by contractions with dependent products / duplicates / identity injected, paths, commuting sets, disjoint unions, "
